@@ -66,6 +66,24 @@ class VwTwoDepthsT:
     many: "typing.List[typing.Optional[VwScale]]" = dataclasses.field(default_factory=list)
 
 @dataclasses.dataclass
+class VwReadings:
+    """a union of stdlib types met as an anonymous argument first, as a field second (PEP 604 spelling)"""
+    history: list[int | None] = dataclasses.field(default_factory=list)
+    latest: int | None = None
+
+@dataclasses.dataclass
+class VwReadingsT:
+    """the same, typing spelling"""
+    history: typing.List[typing.Optional[float]] = dataclasses.field(default_factory=list)
+    latest: typing.Optional[float] = None
+
+@dataclasses.dataclass
+class VwReadingsS:
+    by_day: dict[str, str | bytes] = dataclasses.field(default_factory=dict)
+    latest: str | bytes = ""
+    history: tuple[str | bytes, ...] = ()
+
+@dataclasses.dataclass
 class VwParent:
     name: str
     children: "list[VwChild]" = dataclasses.field(default_factory=list)
@@ -100,6 +118,7 @@ RAW = [
     ("VwG[int]", False), ("VwG", False), ("VwGD[str]", False), ("VwGD", False), ("VwNoAnn", False), ("VwEmpty", False), ("VwTwoVar", False),
     ("tuple[list[vwx.VwXOwner], vwx.VwXOwner]", False), ("dict[str, tuple[vwx.VwXPayee, list[vwx.VwXPayee]]]", False),
     ("typing.Union[list[vwx.VwXPayee], vwx.VwXPayee]", False), ("tuple[vwx.VwXSelf, list[vwx.VwXSelf], vwx.VwXOwner]", False), ("vwx.VwXOwner", False),
+    ("VwReadings", False), ("VwReadingsT", False), ("VwReadingsS", False), ("list[VwReadings]", False),
     ("VwTwoDepths", False), ("VwTwoDepthsT", False), ("list[VwScale | None]", False), ("dict[str, VwTwoDepthsT]", False),
     ("VwAnyFields", False), ("VwScale", False), ("list[VwScale]", False), ("VwParent", False), ("VwChild", False), ("VwSelf", False), ("list[VwParent]", False), ("dict[str, VwSelf]", False),
     ("list[typing.Any]", False), ("dict[str, typing.Any]", False), ("tuple[typing.Any, ...]", False), ("list[VwT]", False),
@@ -111,7 +130,7 @@ RAW = [
 PROBES = [None, 1, "a", "1", {"$f": "1.5"}, True, {"$list": [1, "a", None]}, {"$dict": [["a", 1]]}, {"$tuple": [1, 2]}, {"$list": []}, {"$dict": []},
           {"$dict": [["name", "p"], ["children", {"$list": [{"$dict": [["n", 1], ["parent", {"$dict": [["name", "q"], ["children", {"$list": []}]]}]]}]}]]},
           {"$dict": [["v", 1], ["left", {"$dict": [["v", 2], ["left", {"$dict": [["v", 3]]}]]}]]}, {"$dict": [["n", 1], ["parent", {"$dict": [["name", "q"]]}]]},
-          {"$dict": [["factor", "3"]]}, {"$dict": [["one", {"$dict": [["factor", 2]]}], ["many", {"$list": [{"$dict": [["factor", 3]]}, None]}]]}, {"$dict": [["x", 1], ["n", 2]]}, {"$dict": [["a", 5], ["b", "y"]]}, {"$list": [{"$list": [1]}]}, {"$b": "6162"}, {"$set": [1]}]
+          {"$dict": [["factor", "3"]]}, {"$dict": [["history", {"$list": [1, None, "2"]}], ["latest", "3"]]}, {"$dict": [["by_day", {"$dict": [["mo", "a"]]}], ["latest", "b"], ["history", {"$list": ["c"]}]]}, {"$dict": [["one", {"$dict": [["factor", 2]]}], ["many", {"$list": [{"$dict": [["factor", 3]]}, None]}]]}, {"$dict": [["x", 1], ["n", 2]]}, {"$dict": [["a", 5], ["b", "y"]]}, {"$list": [{"$list": [1]}]}, {"$b": "6162"}, {"$set": [1]}]
 
 
 class C15(PropBase):
